@@ -192,12 +192,13 @@ type scenario struct {
 	Faults     int
 	Bound      int
 	NoCheck    bool // NoConsistencyCheck option
+	Quota      int   // the destination's first Quota answers to AddSequencedLeaves are ResourceExhausted by default (a quota that stays exhausted for a while): the back-off runs through 1 s, 3 s, 9 s, 27 s
 	End        int64 // FetcherOptions.EndIndex; only set in continuous scenarios, where it is documented as ignored
 }
 
 func (s scenario) String() string {
 	return fmt.Sprintf("N=%d dest=%s batch=%d fetchers=%d submitters=%d chan=%d cont=%v grow=%v id=%s mode=%s restarts=%d faults=%d nocheck=%v bound=%d end_index=%d",
-		s.N, s.Dest, s.Batch, s.Fetchers, s.Submitters, s.Chan, s.Continuous, s.Grow, s.IDFunc, s.Mode, s.Restarts, s.Faults, s.NoCheck, s.Bound, s.End)
+		s.N, s.Dest, s.Batch, s.Fetchers, s.Submitters, s.Chan, s.Continuous, s.Grow, s.IDFunc, s.Mode, s.Restarts, s.Faults, s.NoCheck, s.Bound, s.End) + fmt.Sprintf(" quota_streak=%d", s.Quota)
 }
 
 // gated HTTP source
@@ -213,6 +214,7 @@ type srcAnswer struct {
 }
 
 type world struct {
+	unfaulted bool // the director never deviated from an honest, available source and destination (an exhausted quota that recovers is not a fault), nor cancelled or revoked
 	env  *gate.Env
 	mu   sync.Mutex
 	size int // current source size
@@ -373,7 +375,15 @@ func (d *destClient) AddSequencedLeaves(ctx context.Context, in *trillian.AddSeq
 	case "canceled":
 		return nil, gstatus.Error(codes.Canceled, "request canceled by the server side")
 	}
-	return d.log.AddSequencedLeaves(ctx, in)
+	rsp, err := d.log.AddSequencedLeaves(ctx, in)
+	if err != nil {
+		// the reference backend itself refuses the request (an empty batch, after the source answered with no entries):
+		// a failed batch like one answered Internal
+		d.w.mu.Lock()
+		d.w.addAnswers[idx] = "refused"
+		d.w.mu.Unlock()
+	}
+	return rsp, err
 }
 
 // scripted election: always elected at once; the director may revoke mastership
@@ -507,6 +517,8 @@ func runScenario(sc scenario) func(t *testing.T, x *gate.Exec) {
 		isRunning := func() bool { mu.Lock(); defer mu.Unlock(); return running }
 		startRun()
 		faults := sc.Faults
+		quotaLeft := sc.Quota
+		staleRoots := 0
 		restarts := sc.Restarts
 		growIdx := 0
 		cancelled := false
@@ -556,11 +568,16 @@ func runScenario(sc scenario) func(t *testing.T, x *gate.Exec) {
 				switch p.Kind {
 				case "root":
 					add(p.Key+" <- integrate+root", base, func() { env.Answer(p, "integrate") })
-					add(p.Key+" <- stale root (signer lags)", base+1, func() { env.Answer(p, "stale") })
+					add(p.Key+" <- stale root (signer lags)", base+1, func() { staleRoots++; env.Answer(p, "stale") })
 					fault("error", "error")
 				case "add":
 					batch := p.Key[:strings.LastIndex(p.Key, "#")]
-					add(p.Key+" <- ok", base, func() { delete(reOut, batch); env.Answer(p, "ok") })
+					if quotaLeft > 0 {
+						add(p.Key+" <- ResourceExhausted (quota still exhausted)", base, func() { quotaLeft--; reOut[batch] = true; env.Answer(p, "exhausted") })
+						add(p.Key+" <- ok", base+1, func() { quotaLeft = 0; delete(reOut, batch); env.Answer(p, "ok") })
+					} else {
+						add(p.Key+" <- ok", base, func() { delete(reOut, batch); env.Answer(p, "ok") })
+					}
 					if faults > 0 {
 						add(p.Key+" <- ResourceExhausted", base+1, func() { faults--; reOut[batch] = true; env.Answer(p, "exhausted") })
 						add(p.Key+" <- Internal", base+1, func() { faults--; delete(reOut, batch); env.Answer(p, "internal") })
@@ -676,6 +693,7 @@ func runScenario(sc scenario) func(t *testing.T, x *gate.Exec) {
 			x.Violation("no-termination", "%v: the controller did not return after cancel", sc)
 			return
 		}
+		w.unfaulted = faults == sc.Faults && staleRoots == 0 && !cancelled && !revoked
 		oracle(sc, x, w, dlog, results, initial, destFork, cancelled, revoked, endedDrained)
 	}
 }
@@ -760,6 +778,15 @@ func oracle(sc scenario, x *gate.Exec, w *world, dlog *reflog.Log, runs []runRes
 			}
 		}
 	}
+	// O4a: with an honest, available source and destination (whose quota may stay exhausted for a while) and a destination
+	// that holds a prefix of the source, a one-shot run has no reason to fail
+	if w.unfaulted && !sc.Continuous && !destFork && sc.Dest != "ahead" && sc.Dest != "fork2" {
+		for ri, r := range runs {
+			if r.err != nil {
+				x.Violation("run-failed-although-nothing-went-wrong", "%v: run %d returned %v; every request was answered honestly (ResourceExhausted answers: %d)", sc, ri, r.err, sc.Quota)
+			}
+		}
+	}
 	// O4: ResourceExhausted is retried with the same request
 	for ai, a := range w.addAnswers {
 		if a != "exhausted" {
@@ -777,14 +804,18 @@ func oracle(sc scenario, x *gate.Exec, w *world, dlog *reflog.Log, runs []runRes
 		for _, r := range runs {
 			if ai >= r.addsFrom && ai < r.addsTo {
 				for aj := r.addsFrom; aj < r.addsTo && aj < len(w.addAnswers); aj++ {
-					if b := w.addAnswers[aj]; aj != ai && (b == "internal" || b == "deadline" || b == "canceled") {
+					if b := w.addAnswers[aj]; aj != ai && (b == "internal" || b == "deadline" || b == "canceled" || b == "refused") {
 						aborted = true
 					}
 				}
 			}
 		}
 		if !retried && !cancelled && !revoked && !aborted {
-			x.Violation("resource-exhausted-not-retried", "%v: batch starting at %d got ResourceExhausted and was never sent again", sc, w.adds[ai].Leaves[0].LeafIndex)
+			var res []string
+			for _, r := range runs {
+				res = append(res, fmt.Sprint(r.err))
+			}
+			x.Violation("resource-exhausted-not-retried", "%v: batch starting at %d got ResourceExhausted and was never sent again (run results %v)", sc, w.adds[ai].Leaves[0].LeafIndex, res)
 		}
 	}
 	// O5: any other destination error ends the pass: the same batch is not sent again in that pass,
@@ -922,6 +953,13 @@ func scenarios(th bool) []scenario {
 	out = append(out, scenario{N: 2, Dest: "empty", Batch: 2, Fetchers: 1, Submitters: 1, Chan: 1, Continuous: true, Grow: []int{1, 2}, IDFunc: "index", Mode: "run", Faults: 1, Bound: 1, End: 3})
 	out = append(out, scenario{N: 2, Dest: "fork2", Batch: 2, Fetchers: 1, Submitters: 1, Chan: 1, Continuous: true, IDFunc: "cert", Mode: "run", Faults: 1, Bound: 1})
 	out = append(out, scenario{N: 2, Dest: "fork2", Batch: 1, Fetchers: 1, Submitters: 1, IDFunc: "cert", Mode: "run", Restarts: 1, Faults: 1, Bound: 1})
+	// a quota that stays exhausted: every batch is retried until it is stored, however long the streak
+	for _, q := range []int{3, 4, 5} {
+		out = append(out, scenario{N: 3, Dest: "empty", Batch: 3, Fetchers: 1, Submitters: 1, IDFunc: "cert", Mode: "run", Faults: 1, Bound: 1, Quota: q})
+	}
+	// (one submitter: two back-off chains running side by side would be ordered by their unowned jitter)
+	out = append(out, scenario{N: 4, Dest: "prefix1", Batch: 2, Fetchers: 2, Submitters: 1, Chan: 1, IDFunc: "index", Mode: "run", Faults: 1, Bound: 1, Quota: 4})
+	out = append(out, scenario{N: 2, Dest: "empty", Batch: 2, Fetchers: 1, Submitters: 1, Chan: 1, Continuous: true, Grow: []int{1}, IDFunc: "cert", Mode: "run", Faults: 0, Bound: 1, Quota: 4})
 	if th {
 		for i := range out {
 			out[i].Bound = 3
